@@ -22,6 +22,9 @@ EXPLANATION = (
     'that writes a length prefix decodes with prefix size 3 and every transport that writes bare frames decodes '
     'with prefix size 0; plus (shared with C12.e) every iteration consumes at least one byte. Not decided: equality '
     'of the decoded sequences for all partitions (a value property).')
+EXPLANATION_ADDED = ('(g) the TCP transport hands every non-empty chunk, whole, to the parser and gives a chunk up only because it is empty; (h) what the decoder hands back on a parse failure (shared C12.a).')
+EXPLANATION = EXPLANATION.replace(' Not decided', ' ' + EXPLANATION_ADDED + ' Not decided', 1) \
+    if ' Not decided' in EXPLANATION else EXPLANATION + ' ' + EXPLANATION_ADDED
 ASSUMPTIONS = COMMON_ASSUMPTIONS
 
 PARSER = 'rsocket.frame_parser:FrameParser'
